@@ -27,6 +27,7 @@ import . "github.com/pbenner/autodiff/logarithmetic"
 
 import . "github.com/pbenner/autodiff"
 import . "github.com/pbenner/threadpool"
+import   "github.com/pbenner/autodiff/verifhook"
 
 /* -------------------------------------------------------------------------- */
 
@@ -142,6 +143,8 @@ func (obj *ExponentialEstimator) Estimate(gamma ConstVector, p ThreadPool) error
   //////////////////////////////////////////////////////////////////////////////
   if gamma == nil {
     if err := p.AddRangeJob(0, x.Dim(), g, func(i int, p ThreadPool, erf func() error) error {
+      verifhook.Yield("scalarEstimator.exponential.job")
+      verifhook.Event("scalarEstimator.exponential", i, p.GetThreadId())
       obj.NewObservation(x.ConstAt(i), nil, p)
       return nil
     }); err != nil {
@@ -149,12 +152,15 @@ func (obj *ExponentialEstimator) Estimate(gamma ConstVector, p ThreadPool) error
     }
   } else {
     if err := p.AddRangeJob(0, x.Dim(), g, func(i int, p ThreadPool, erf func() error) error {
+      verifhook.Yield("scalarEstimator.exponential.job")
+      verifhook.Event("scalarEstimator.exponential", i, p.GetThreadId())
       obj.NewObservation(x.ConstAt(i), gamma.ConstAt(i), p)
       return nil
     }); err != nil {
       return err
     }
   }
+  verifhook.Yield("scalarEstimator.exponential.queued")
   if err := p.Wait(g); err != nil {
     return err
   }
